@@ -273,8 +273,10 @@ def finish(res, level_rule, samples_extra=None):
         "wall_s": round(time.time() - res.t0, 1),
         "violations": len(real_violations),
     }
-    os.makedirs(os.path.join(VERIF, "evidence"), exist_ok=True)
-    json.dump(ev, open(os.path.join(VERIF, "evidence", res.prop + ".json"), "w"), indent=1)
+    # seeded-change runs (bin/seedtest) write their evidence elsewhere so that evidence/ always describes the real tree
+    evdir = os.environ.get("VERIF_EVIDENCE_DIR") or os.path.join(VERIF, "evidence")
+    os.makedirs(evdir, exist_ok=True)
+    json.dump(ev, open(os.path.join(evdir, res.prop + ".json"), "w"), indent=1)
     for (h, path, text) in real_violations:
         print("VIOLATION property=%s replay=%s" % (res.prop, path))
         for l in text.splitlines()[-6:]:
@@ -284,11 +286,11 @@ def finish(res, level_rule, samples_extra=None):
     if res.inconclusive:
         for h, why in res.inconclusive:
             print("INCONCLUSIVE property=%s query=%s: %s" % (res.prop, h.split("::")[-1], why))
-        # quick: undecided queries are reported, not failed, unless nothing at all was decided
-        if res.tier == "thorough" or not decided:
-            return 2
+        # queries stopped by their time cap are undecided: listed, never counted as discharged, and not an alarm;
+        # anything else (failed unwinding assertion, unsatisfied vacuity witness, non-reproducing counterexample,
+        # out of memory, solver disagreement) is a machinery problem and exits 2
         hard = [w for _, w in res.inconclusive if not w.startswith("timeout")]
-        if hard:
+        if hard or not decided:
             return 2
     print("OK property=%s tier=%s queries=%d discharged=%d undecided=%d wall=%.0fs" % (
         res.prop, res.tier, len(res.queries), cov["queries_discharged"], len(res.inconclusive), time.time() - res.t0))
